@@ -2529,6 +2529,20 @@ for _tr, _m, _op in (('Add', 'add', 'Add'), ('Sub', 'sub', 'Sub'), ('Mul', 'mul'
     MODELS[f'{_tr}Assign::{_m}_assign'] = _mka()
 
 
+@model('<String as AddAssign>::add_assign')
+def _string_add_assign(E, ci, a, b):
+    return MODELS['String::push_str'](E, ci, a, b)
+
+
+@model('<String as Add>::add')
+def _string_add(E, ci, a, b):
+    # String + &str: consumes the left operand, appends
+    v = deref(a)
+    cell = [v]
+    MODELS['String::push_str'](E, ci, Ref(cell, 0), b)
+    return cell[0]
+
+
 @model('Not::not')
 def _not_trait(E, ci, a):
     a = deref(a)
